@@ -4,6 +4,9 @@ expected results are learned from Fresh events).
 
 stylesheets  S1 plain                                   S2 nested scopes, xsl:message terminate guarded by $p
              S3 keys/number/RTF/sort/document('')/fmt   S4 extension function + top-level param
+             S5 top-level variable (result-tree fragment, lazily evaluated, referenced through a second top-level
+                variable) whose evaluation is aborted by xsl:message terminate when $p = 'stop'
+             S6 top-level variable whose select uses $p as a node-set: run-time XPath error whenever p is set
              SE unknown output encoding                 SU character the output encoding cannot represent (text)
              SM document() of a missing file            SX not well-formed         SV well-formed, not valid XSLT
 sources      D1, D2 (different sizes and key values), DX not well-formed
@@ -104,6 +107,29 @@ S4 = """<?xml version="1.0"?>
 </xsl:stylesheet>
 """ % XSL
 
+# S5 / S6: the failure happens INSIDE the lazy evaluation of a top-level variable (the variables stack then holds the
+# "evaluation in progress" marks used to detect circular definitions); a later run of the SAME compiled stylesheet
+# that references the variable shows whether they were cleaned up.
+S5 = """<?xml version="1.0"?>
+<xsl:stylesheet version="1.0" %s>
+<xsl:output method="xml" omit-xml-declaration="yes"/>
+<xsl:param name="p" select="'go'"/>
+<xsl:variable name="g"><xsl:for-each select="/doc/item"><xsl:if test="$p = 'stop' and position() = 2"><xsl:message terminate="yes">halt inside a top-level variable</xsl:message></xsl:if><v><xsl:value-of select="@n"/></v></xsl:for-each></xsl:variable>
+<xsl:variable name="h" select="concat($g, '!', $p)"/>
+<xsl:template match="/"><t><xsl:apply-templates select="doc/item[1]"/></t></xsl:template>
+<xsl:template match="item"><xsl:value-of select="$h"/>|<xsl:copy-of select="$g"/></xsl:template>
+</xsl:stylesheet>
+""" % XSL
+
+S6 = """<?xml version="1.0"?>
+<xsl:stylesheet version="1.0" %s>
+<xsl:output method="xml" omit-xml-declaration="yes"/>
+<xsl:param name="p" select="/doc"/>
+<xsl:variable name="g" select="count($p/item)"/>
+<xsl:template match="/"><u><xsl:for-each select="doc/item"><xsl:value-of select="$g + @n"/>,</xsl:for-each></u></xsl:template>
+</xsl:stylesheet>
+""" % XSL
+
 SE = """<?xml version="1.0"?>
 <xsl:stylesheet version="1.0" %s>
 <xsl:output method="xml" encoding="x-no-such-encoding"/>
@@ -148,7 +174,7 @@ DX = """<?xml version="1.0"?>
 """
 
 POOL = {
-    "ss": {"S1": S1, "S2": S2, "S3": S3, "S4": S4, "SE": SE, "SU": SU, "SM": SM, "SX": SX, "SV": SV},
+    "ss": {"S1": S1, "S2": S2, "S3": S3, "S4": S4, "S5": S5, "S6": S6, "SE": SE, "SU": SU, "SM": SM, "SX": SX, "SV": SV},
     "src": {"D1": D1, "D2": D2, "DX": DX},
     "vals": {"str": {"form": "expr", "text": "'stop'"},
              "num": {"form": "num", "num": 2},
